@@ -66,8 +66,8 @@ func runCase(rec *mon.Recorder, c int) {
 	// priorities: small tie-rich set, or floats
 	tieRich := rng.Intn(2) == 0
 	// every fourth tie-rich case draws from the edges of the non-negative floats instead of small integers:
-	// negative zero (equal to zero, accepted by Push), zero, the smallest subnormal, one, the largest finite value
-	edges := []float32{float32(math.Copysign(0, -1)), 0, math.SmallestNonzeroFloat32, 1, math.MaxFloat32, math.MaxFloat32}
+	// negative zero (equal to zero, accepted by Push), zero, the smallest subnormal, one, the largest finite value, +Inf (what an overflowing distance is)
+	edges := []float32{float32(math.Copysign(0, -1)), 0, math.SmallestNonzeroFloat32, 1, math.MaxFloat32, float32(math.Inf(1))}
 	// every fourth tie-rich case (the others of them) draws from a cluster of six neighbouring float32 values:
 	// distinct priorities that differ in the last bit (what distances of near-duplicate vectors look like)
 	clusterBase := []float32{1, 0.1, 1e-30, 16777216, 3e38, math.SmallestNonzeroFloat32 * 3}[(c/4)%6]
